@@ -52,8 +52,8 @@ PROPS = {
     },
     "C06": {
     "generators": [("c06a", 4000, 120000), ("c06idx", 6000, 60000), ("c06pc", 3000, 60000)],
-    "translators": ["translator_c06"],
-    "modules": ["S2.ShapesBase", "S2.ShapesLoops", "S2.Shapes", "S2.Generated.ShapeAccessors", "S2.Locate", "S2.PaddedCellM", "S2.Hilbert", "S2.STUV", "S2.CellM", "S2.CellID", "S2.Contain", "S2.Pred", "S2.Exact"],
+    "translators": ["translator_c06", "translator_c08"],
+    "modules": ["S2.Generated.LocateFns", "S2.ShapesBase", "S2.ShapesLoops", "S2.Shapes", "S2.Generated.ShapeAccessors", "S2.Locate", "S2.PaddedCellM", "S2.Hilbert", "S2.STUV", "S2.CellM", "S2.CellID", "S2.Contain", "S2.Pred", "S2.Exact"],
     "rule": "shapes: every Shape type (Loop incl. empty/full/0/2-vertex, Polyline, LaxPolyline, PointVector, LaxLoop (both "
             "constructors), LaxPolygon with 0,1,2,few,many loops incl. 0/1/2-vertex loops, Polygon empty/full/no-loop, disjoint and "
             "nested loop sets of 1..7, 11,12,13,14,40 loops = both sides of maxLinearSearchLoops) with pairwise distinct vertices; "
@@ -266,7 +266,8 @@ PROPS = {
     "C04": {
     # (generator, quick n, thorough n); quick ~ 40 s on 16 cores, thorough ~ 7 min
     "generators": [("c04", 8000, 80000)],
-    "modules": ["S2.Contain", "S2.Pred", "S2.Exact", "S2.STUV", "S2.F64", "S2.CellID", "S2.Hilbert"],
+    "translators": ["translator_c08"],
+    "modules": ["S2.Generated.ContainFns", "S2.Contain", "S2.Pred", "S2.Exact", "S2.STUV", "S2.F64", "S2.CellID", "S2.Hilbert"],
     "rule": "exact judge = crossing parity from OriginPoint with the exact orientation predicate (S2.Contain over S2.Pred.exactDecision). "
             "c04contain: valid loops (star-shaped about a centre at a pole / cube corner / face-edge midpoint / face centre / near a seam / anywhere; "
             "3..2000 vertices incl. 30..35 around the 32-vertex brute-force threshold; radius 1e-7 .. hemisphere; regular or jittered; "
@@ -459,7 +460,8 @@ PROPS = {
         # generator, quick n, thorough n (sharded over the cores by ./check; n/2 bare coverings + n/6 index/target
         # pairs with 3 (thorough 8) option sets each per shard)
         "generators": [("c08", 96000, 48000)],
-        "modules": ["S2.EdgeQueryM", "S2.CellID", "S2.Locate", "S2.F64"],
+        "translators": ["translator_c08"],
+        "modules": ["S2.Generated.QueryFns", "S2.Generated.DistTargetFns", "S2.EdgeQueryM", "S2.CellID", "S2.Locate", "S2.F64"],
         "rule": "corpus (pinned cases of the repaired defects D7, D9, D10) first. c08cover: initCovering on bare sorted lists of "
                 "pairwise disjoint valid cells (0..80 cells, siblings, curve neighbours, whole faces, 1..6 faces with 1..3 cells of "
                 "mixed levels per face) compared with the Lean model cell for cell. c08eq: indexes of 3..300 (thorough 1500) edges "
